@@ -79,13 +79,14 @@ func workerMain() int {
 		if j.Timeout == 0 {
 			j.Timeout = 60000
 		}
-		if solver == nil || curTimeout != j.Timeout {
-			if solver != nil {
-				solver.Close()
-			}
-			solver = NewSolver([]string{solverBin, "-in"}, j.Timeout)
-			curTimeout = j.Timeout
+		// a fresh solver process for every instance: what one instance
+		// declared or left behind in z3 must not reach the next one (the
+		// order of instances depends on VERIF_SEED; results must not)
+		if solver != nil {
+			solver.Close()
 		}
+		solver = NewSolver([]string{solverBin, "-in"}, j.Timeout)
+		_ = curTimeout
 		open := map[string]bool{}
 		for _, o := range j.Open {
 			open[o] = true
